@@ -200,6 +200,9 @@ def run(tier, seed):
             first = [n for n in simple if "absolute" not in n]
         for h in itertools.product(first, pool):
             hists.append((STARTS[1], "clockwise", h, opts))
+    # from a fresh builder (no axis position known yet): every op first, and behind one plain op
+    for h in [(n,) for n in names] + [(a, b) for a in ("rapid", "move-xy") for b in names]:
+        hists.append((STARTS[0], "counter", h, {"unknown": True}))
     results = pmap(run_history, hists, chunksize=8)
     nv = 0
     for out, total in results:
